@@ -165,7 +165,7 @@ pub fn worker_main(engines: &[&dyn Engine]) -> i32 {
             let from: u64 = arg_val(rest, "--from").and_then(|s| s.parse().ok()).unwrap_or(0);
             let to: u64 = arg_val(rest, "--to").and_then(|s| s.parse().ok()).unwrap_or(1);
             let out_hashes = arg_val(rest, "--out-hashes");
-            let max_fail: u64 = arg_val(rest, "--max-fail").and_then(|s| s.parse().ok()).unwrap_or(5);
+            let max_fail: u64 = arg_val(rest, "--max-fail").and_then(|s| s.parse().ok()).unwrap_or(400);
             let mut ctx = RunCtx::new(false);
             ctx.free = free;
             let mut plans: BTreeSet<u64> = BTreeSet::new();
